@@ -7,14 +7,19 @@ build_operator_operand_fixup and function_helpers.cse_array_wrapper (through
 apply_meta).  Oracle: the property's statement evaluated on the implementation
 alone (pointwise values through the scalar operator / scalar call; target shape
 by the sentence "trimmed / repeated / #N/A"), also end to end on workbooks with
-array formulas entered over target ranges."""
+array formulas entered over target ranges.  The member-cell model
+(Model/CseCells.v: load_array_formulas / cell_to_formula / _evaluate_range /
+eval_func / INDEX / _evaluate) is tied to ExcelCompiler on the same workbooks:
+the formula's result array and the target shape -> the value of EVERY cell of the
+target (stream e2e:cells), and the numbers and range written into every member
+cell (stream e2e:sheet)."""
 import itertools
 
 from harness.common import (canon, dec_res, enc_val, ensure_impl_on_path, known_predicate,
                             run_impl, same)
 
-GEN_MODULES = ['excelutil', 'arrayfit']
-EXTRA_TARGETS = ['Refuted/C13_scalar_error.vo']
+GEN_MODULES = ['excelutil', 'arrayfit', 'lookup']
+EXTRA_TARGETS = ['Refuted/C13_scalar_error.vo', 'Refuted/C13_adjacent_ranges.vo']
 EXPLANATION = (
     "fit_to_range is translated from excelutil.py on every run (Gen/arrayfit.v) and proved equal to the "
     "list-level specification fit_spec for every non-empty rectangular result and every target >= 1x1; "
@@ -22,7 +27,11 @@ EXPLANATION = (
     "are hand-modelled in Model/Arrays.v; their pointwise theorems hold for all shapes and, for the wrapper, "
     "for an arbitrary wrapped function; the tie to the code is the differential run (all operand shape pairs "
     "and all result x target shapes up to 4x4, sampled values).  The CSE pipeline of excelwrapper / "
-    "excelcompiler is exercised end to end on generated workbooks (oracle only).")
+    "excelcompiler (member cell = INDEX(fit(result), i, j)) is modelled in Model/CseCells.v; "
+    "C13_member_shows_own_element / C13_member_cells / C13_formula_op_member / C13_formula_fun_member hold "
+    "for all result shapes, target shapes and member positions; the model is compared with ExcelCompiler on "
+    "every cell of every target of the generated workbooks (value side) and on the texts written into the "
+    "member cells (sheet side); the end-to-end oracle stays.")
 
 OPS = ['Add', 'Sub', 'Mult', 'Div', 'Pow', 'BitAnd', 'USub', 'Eq', 'NotEq', 'Lt', 'LtE', 'Gt', 'GtE']
 OP_TEXT = {'Add': '+', 'Sub': '-', 'Mult': '*', 'Div': '/', 'Pow': '^', 'BitAnd': '&', 'Eq': '=',
@@ -40,7 +49,10 @@ ASSUMPTIONS = [
     "the least position, which is what CPython's set iteration gives for positions below 8",
     "exact arithmetic: numeric elements are integers below 2^26 or dyadic fractions",
     "the CSE pipeline of excelwrapper/excelcompiler (CSE_INDEX expansion, member = index(range, i, j)) is "
-    "covered by the end-to-end oracle only, not by a Coq model",
+    "hand-modelled in Model/CseCells.v on numbers, not on formula text: parsing '=CSE_INDEX(...)' / "
+    "'=index(...)' and compiling the formulas are outside the model; what the array formula's compiled code "
+    "returns is a parameter (Model/Arrays.v for operators and lifted functions); INDEX inside its wrappers "
+    "is Model/Lookup.v X_index (C16's model); the tie is the differential run on every cell of every target",
 ]
 
 
@@ -161,6 +173,49 @@ def _scalar_error_short_circuit(case):
     return (arr(l) and err(r)) or (err(l) and arr(r))
 
 
+ADJACENT_ID = 'C13-adjacent-array-formulas-merged'
+
+
+@known_predicate(ADJACENT_ID)
+def _adjacent_merged(case):
+    """Inert until registered in known_findings.json (the oracle stream that produces it runs only then).
+    One cause: _OpxRange.__new__ (excelwrapper.py 77-87) gives a range the array formula of its top left
+    cell whenever that cell is member (1, 1) and every cell of the range STARTS WITH the same
+    '=CSE_INDEX(<text>' — it does not look at the members' own sizes.  A range that starts at one array
+    formula's top left and runs on into an adjacent array formula whose text starts with the same text
+    (the same formula entered twice, or =A1:B1*2 next to =A1:B1*20) is evaluated as ONE array formula
+    over the larger range: =A1:B1*2 over F10:G10 and over H10:I10 -> evaluate(F10:I10) =
+    (2, 4, #N/A, #N/A) and SUM(F10:I10) = #N/A, while H10, I10 show 2, 4.
+    Model: Model/CseCells.v range_formula; Refuted/C13_adjacent_ranges.v."""
+    return case.get('call') == 'range-over-array-formulas'
+
+
+SUBRANGE_ID = 'C13-inmemory-subrange-typeerror'
+
+
+@known_predicate(SUBRANGE_ID)
+def _inmemory_subrange(case):
+    """Inert until registered in known_findings.json (the oracle stream that produces it runs only then).
+    With a workbook handed over in memory (ExcelCompiler(excel=wb) -> ExcelOpxWrapperNoData) a range whose
+    top left cell is a member of an array formula but that is not taken for the formula's own range (e.g.
+    the second column or the second row of the reference range: =SUM(G10:G11) next to an array formula
+    over F10:G11; or a range from its top left running past it into other cells: F10:G13) cannot be
+    evaluated: _OpxRange.__new__ leaves formula = None and
+    ExcelOpxWrapperNoData.OpxRange.__new__ (excelwrapper.py 376-381) zips over it ->
+    TypeError "'NoneType' object is not iterable".  The same workbook loaded from a file evaluates it
+    cell by cell (12).  Model: range_formula = None -> cell by cell (C13_range_formula_inner)."""
+    return case.get('call') == 'range-inside-array-formula'
+
+
+@known_predicate('C13-empty-marker-text-shown-as-zero')
+def _empty_marker_text(case):
+    """Inert (the generators never produce this text).  eval_func returns 0 for a formula value that is
+    None or equals pycel's blank marker '#EMPTY!' (excelformula.py `ret_val not in (None, EMPTY)`), so a
+    member cell whose own element is the TEXT "#EMPTY!" (e.g. ="#EMPTY"&"!" entered over a range) shows 0
+    while evaluate(range) shows the text.  Model: Model/CseCells.v eval_formula / shown."""
+    return case.get('call') == 'array-formula' and 'member' in case and case.get('element') == '#EMPTY!'
+
+
 def run(ctx):
     ensure_impl_on_path()
     import logging
@@ -179,7 +234,9 @@ def run(ctx):
         "operators, every result shape x every target shape h x w <= 4x4 for fit_to_range, every compatible "
         "operand pair x every target end to end in a workbook; element values sampled by the PRNG from "
         "numbers (ints, dyadic floats), text, logicals, blank and the error codes; lifted functions MOD, "
-        "ROUND, LEFT, IF and a probe function through apply_meta with array/scalar argument mixes; "
+        "ROUND, LEFT, IF and a probe function through apply_meta with array/scalar argument mixes; every cell "
+        "of every end-to-end target against the member-cell model; ranges around two adjacent array formulas "
+        "(same text, extended text, other text; horizontal or vertical; reference sizes up to 3x3); "
         "distinct = distinct (call, shapes, values)")
 
     # ================================================= 1. fit_to_range
@@ -374,6 +431,9 @@ def run(ctx):
     # ================================================= 4. end to end: array formulas in a workbook
     end_to_end(ctx, fixup, FUNCS)
 
+    # ================================================= 5. which range is an array formula's range
+    range_formulas(ctx, fixup)
+
 
 def cell_value(ctx):
     """Values a worksheet cell can hold (text that openpyxl would read as a formula is avoided)."""
@@ -418,6 +478,7 @@ def end_to_end(ctx, fixup, FUNCS):
         for sh in ctx.rng.sample(SHAPES, ctx.n(4, 16)):
             plans.append((name, sh, ctx.rng.choice([None, sh])))
     model_calls, checks = [], []
+    cell_calls, sheet_calls = [], []
     for plan in plans:
         kind, sa, sb = plan
         for rep in range(ctx.n(2, 6)):
@@ -448,6 +509,9 @@ def end_to_end(ctx, fixup, FUNCS):
 
                 def scalar(r, c):
                     return run_impl(fixup, belem(a, r, c), o, belem(b, r, c))
+
+                def whole():                  # what the formula's compiled code returns
+                    return fixup(a, o, b)
             else:
                 f = FUNCS[kind][0]
                 xl = {'mod': 'MOD', 'left': 'LEFT', 'round_': 'ROUND', 'if_': 'IF'}[kind]
@@ -458,10 +522,18 @@ def end_to_end(ctx, fixup, FUNCS):
                 def scalar(r, c):
                     xs = [belem(a, r, c), belem(b, r, c)] + (['n'] if kind == 'if_' else [])
                     return run_impl(f, *xs)
+
+                def whole():
+                    return f(a, b, *(['n'] if kind == 'if_' else []))
             sh = bshape(shape_of(a), shape_of(b)) or (1, 1)
             point = [[scalar(r, c) for c in range(sh[1])] for r in range(sh[0])]
             if any(x[0] != 'ok' for row in point for x in row):
                 continue
+            try:
+                raw_whole, whole_ok = whole(), True
+                enc_val(raw_whole)
+            except Exception:      # noqa: BLE001
+                raw_whole, whole_ok = None, False
             point = tuple(tuple(x[1] for x in row) for row in point)
             targets = {}
             for (h, w) in SHAPES:
@@ -475,10 +547,23 @@ def end_to_end(ctx, fixup, FUNCS):
                 ctx.violation(dict(call='array-formula', args=args, formula=formula),
                               f"workbook with array formulas does not compile: {type(exc).__name__}")
                 continue
+            sheet_sample = set(ctx.rng.sample(sorted(targets), ctx.n(2, 6)))
             for (h, w), (r0, c0, ref) in targets.items():
                 case = dict(call='array-formula', args=args, formula=formula, target=ref)
                 want = fit_statement(point, h, w)
                 got = run_impl(comp.evaluate, f'Sheet!{ref}')
+                # ---- the member-cell model, value side: every cell of the target
+                cells = [[run_impl(comp.evaluate, f'Sheet!{col(c0 + j)}{r0 + i}') for j in range(w)]
+                         for i in range(h)]
+                if whole_ok:
+                    bad = [x for row in cells for x in row if x[0] != 'ok']
+                    im_cells = bad[0] if bad else ('ok', tuple(tuple(x[1] for x in row) for row in cells))
+                    cell_calls.append((dict(call='target-cells', args=args, formula=formula, target=ref,
+                                            result=canon(raw_whole)), raw_whole, h, w, im_cells))
+                # ---- … sheet side: the numbers / range written into the member cells
+                if (h, w) in sheet_sample and (h, w) != (1, 1):
+                    sheet_calls.append((dict(call='load-members', args=[r0, c0, h, w], target=ref),
+                                        (r0, c0, h, w), run_impl(sheet_side, comp, r0, c0, h, w)))
                 ctx.count(('e2e', formula, repr(a), repr(b), ref), kind=f'e2e:{kind}',
                           sample=dict(case, impl=got))
                 if got != ('ok', canon(squeeze(want))):
@@ -488,17 +573,34 @@ def end_to_end(ctx, fixup, FUNCS):
                 if kind == 'op':
                     model_calls.append((args, h, w))
                     checks.append((case, got))
-                # each member cell shows its own element (two sampled members per target)
-                for _ in range(2):
-                    i, j = ctx.rng.randrange(h), ctx.rng.randrange(w)
+                # each member cell shows its own element (every member of the target)
+                for i, j in itertools.product(range(h), range(w)):
                     member = f'Sheet!{col(c0 + j)}{r0 + i}'
-                    gm = run_impl(comp.evaluate, member)
+                    gm = cells[i][j]
                     ctx.count(('e2e-member', formula, repr(a), repr(b), ref, i, j), kind='e2e:member')
                     wm = canon(want[i][j])
                     # a blank element (IF picking an empty cell) is shown as blank or as 0
                     if gm != ('ok', wm) and not (wm is None and gm == ('ok', 0)):
-                        ctx.violation(dict(case, member=member), "member cell does not show its own element",
+                        ctx.violation(dict(case, member=member, element=wm), "member cell does not show its own element",
                                       impl=gm, expected=wm)
+    # the member-cell model against the compiler: same (result array, target shape) -> every cell
+    if ctx.model and cell_calls:
+        ms = [dec_res(x) for x in ctx.model.batch(
+            [('target_cells', [h, w, enc_val(res)]) for _, res, h, w, _ in cell_calls])]
+        for (case, res, h, w, im), m in zip(cell_calls, ms):
+            ctx.count(('e2e-cells', case['formula'], repr(case['args']), case['target']),
+                      kind='e2e:cells' if (h, w) != (1, 1) else 'e2e:cells-1x1', sample=dict(case, impl=im))
+            if not skip_model(m) and not same(m, im):
+                ctx.divergence(case, im, m, 'Model/CseCells.v target_cells (h, w) result = the cells of the '
+                                            'array formula\'s range as ExcelCompiler evaluates them')
+    if ctx.model and sheet_calls:
+        ms = [dec_res(x) for x in ctx.model.batch(
+            [('load_members', list(key)) for _, key, _ in sheet_calls])]
+        for (case, key, im), m in zip(sheet_calls, ms):
+            ctx.count(('e2e-sheet',) + key, kind='e2e:sheet', sample=dict(case, impl=im))
+            if not skip_model(m) and not same(m, im):
+                ctx.divergence(case, im, m, 'Model/CseCells.v load_members / member_range = the CSE_INDEX '
+                                            'texts and =index(range, i, j) formulas of the member cells')
     # the same end-to-end values from the models: fit_to_range (h, w) (op_fixup a o b)
     if ctx.model and model_calls:
         first = [dec_res(x) for x in ctx.model.batch(
@@ -514,6 +616,174 @@ def end_to_end(ctx, fixup, FUNCS):
                 m = ('ok', sq_model(m[1]))
             if not skip_model(m) and not same(m, got):
                 ctx.divergence(case, got, m, 'fit_to_range(op_fixup a o b) in the models = evaluate(target range)')
+
+
+def sheet_cells(ws, r0, c0, h, w):
+    """The cells of a range as Model/CseCells.v sheet_cell: [] or [text, i, j, h, w] (wire form)."""
+    rows = []
+    for row in range(r0, r0 + h):
+        cells = []
+        for cl in range(c0, c0 + w):
+            text = ws.cell(row=row, column=cl).value
+            if isinstance(text, str) and text.startswith('=CSE_INDEX(') and text.endswith(')'):
+                f, i, j, hh, ww = text[len('=CSE_INDEX('):-1].rsplit(',', 4)
+                cells.append([enc_val(f), int(i), int(j), int(hh), int(ww)])
+            else:
+                cells.append([])
+        rows.append(cells)
+    return rows
+
+
+def impl_range_formula(comp, ref):
+    # _OpxRange.__new__ itself: the in-memory wrapper's post-processing (ExcelOpxWrapperNoData.OpxRange)
+    # raises TypeError on a range without a formula of its own — see SUBRANGE_ID
+    from pycel.excelwrapper import ExcelOpxWrapper
+    f = ExcelOpxWrapper.get_range(comp.excel, f'Sheet!{ref}').formula
+    if isinstance(f, str):
+        assert f.startswith('={') and f.endswith('}'), f
+        return (True, f[2:-1])
+    return (False,)
+
+
+def range_formulas(ctx, fixup):
+    """Two array formulas entered over adjacent reference ranges (same text, a text that extends the first,
+    another text), and the ranges of the sheet around them: which of them _OpxRange.__new__ takes for an
+    array formula's own range (model: range_formula), and what such a range evaluates to."""
+    from openpyxl import Workbook
+    from openpyxl.worksheet.formula import ArrayFormula
+    from pycel import ExcelCompiler
+
+    # the two oracle streams below produce violations on the unrepaired implementation; they run once the
+    # finding is registered in known_findings.json (or with C13_GATED_ORACLES=1, to see them fail)
+    import os
+    force = os.environ.get('C13_GATED_ORACLES') == '1'
+    oracle_on = force or any(f.get('id') == ADJACENT_ID for f in ctx.findings)
+    subrange_on = force or any(f.get('id') == SUBRANGE_ID for f in ctx.findings)
+    rf_calls, rv_calls = [], []
+    for rep in range(ctx.n(40, 200)):
+        wb = Workbook()
+        ws = wb.active
+        sa = (ctx.rng.randrange(1, 4), ctx.rng.randrange(1, 4))
+        vals = tuple(tuple(ctx.rng.choice([0, 1, 2, 3, 7, -5, 0.5, 1.5, 12]) for _ in range(sa[1]))
+                     for _ in range(sa[0]))
+        for i, row in enumerate(vals):
+            for j, v in enumerate(row):
+                ws.cell(row=1 + i, column=1 + j, value=v)
+        src = f'A1:{col(sa[1])}{sa[0]}' if sa != (1, 1) else 'A1:A1'
+        k = ctx.rng.choice([2, 3, 5])
+        f1 = f'{src}*{k}'
+        variant = ctx.rng.choice(['same', 'same', 'extends', 'other'])
+        f2 = {'same': f1, 'extends': f1 + '0', 'other': f'{src}+{k}'}[variant]
+        h1, w1 = ctx.rng.randrange(1, 4), ctx.rng.randrange(1, 4)
+        if (h1, w1) == (1, 1):
+            w1 = 2
+        horizontal = ctx.rng.random() < 0.5
+        if horizontal:
+            h2, w2 = h1, ctx.rng.randrange(1, 4)
+            r2, c2 = 10, 6 + w1
+        else:
+            h2, w2 = ctx.rng.randrange(1, 4), w1
+            r2, c2 = 10 + h1, 6
+        if (h2, w2) == (1, 1):
+            h2, w2 = (1, 2) if horizontal else (2, 1)
+            if not horizontal and w1 != 1:
+                h2, w2 = 2, w1
+            if horizontal and h1 != 1:
+                h2, w2 = h1, 2
+        ref1 = f'{col(6)}10:{col(6 + w1 - 1)}{10 + h1 - 1}'
+        ref2 = f'{col(c2)}{r2}:{col(c2 + w2 - 1)}{r2 + h2 - 1}'
+        ws.cell(row=10, column=6, value=ArrayFormula(ref1, '=' + f1))
+        ws.cell(row=r2, column=c2, value=ArrayFormula(ref2, '=' + f2))
+        try:
+            comp = ExcelCompiler(excel=wb)
+        except Exception as exc:      # noqa: BLE001
+            ctx.violation(dict(call='array-formula', args=[f1, f2, ref1, ref2]),
+                          f"workbook with array formulas does not compile: {type(exc).__name__}")
+            continue
+        sheet = comp.excel.workbook['Sheet']
+        a = vals if sa != (1, 1) else vals        # A1:A1 is read as a range as well
+        try:
+            res1 = fixup(a, 'Mult', k)
+            enc_val(res1)
+        except Exception:      # noqa: BLE001
+            res1 = None
+        # the ranges around: both reference ranges, the range spanning both, ranges from the first top left
+        # of random extent, ranges starting inside
+        H, W = (h1, w1 + w2) if horizontal else (h1 + h2, w1)
+        spans = [(10, 6, h1, w1), (r2, c2, h2, w2), (10, 6, H, W)]
+        for _ in range(4):
+            spans.append((10, 6, ctx.rng.randrange(1, H + 2), ctx.rng.randrange(1, W + 2)))
+            spans.append((10 + ctx.rng.randrange(0, 2), 6 + ctx.rng.randrange(0, 2),
+                          ctx.rng.randrange(1, H + 1), ctx.rng.randrange(1, W + 1)))
+        for (r0, c0, h, w) in spans:
+            if (h, w) == (1, 1):
+                continue
+            ref = f'{col(c0)}{r0}:{col(c0 + w - 1)}{r0 + h - 1}'
+            case = dict(call='range-formula', args=[f1, ref1, f2, ref2], range=ref)
+            im = run_impl(impl_range_formula, comp, ref)
+            rf_calls.append((case, sheet_cells(sheet, r0, c0, h, w), im))
+            if subrange_on and im == ('ok', (False,)):
+                cells = tuple(tuple(run_impl(comp.evaluate, f'Sheet!{col(c0 + j)}{r0 + i}')
+                                    for j in range(w)) for i in range(h))
+                got = run_impl(comp.evaluate, f'Sheet!{ref}')
+                if all(x[0] == 'ok' for row in cells for x in row):
+                    want = ('ok', squeeze(tuple(tuple(x[1] for x in row) for row in cells)))
+                    if got != want:
+                        ctx.violation(dict(call='range-inside-array-formula', args=[f1, ref1, f2, ref2],
+                                           range=ref),
+                                      "a range inside an array formula's range does not show its cells' values",
+                                      impl=got, expected=want[1])
+            if im == ('ok', (True, f1)) and res1 is not None:
+                got = run_impl(comp.evaluate, f'Sheet!{ref}')
+                rv_calls.append((dict(case, result=canon(res1)), res1, h, w, got))
+                if oracle_on:
+                    cells = tuple(tuple(run_impl(comp.evaluate, f'Sheet!{col(c0 + j)}{r0 + i}')
+                                        for j in range(w)) for i in range(h))
+                    if all(x[0] == 'ok' for row in cells for x in row):
+                        want = ('ok', squeeze(tuple(tuple(x[1] for x in row) for row in cells)))
+                        if got != want:
+                            ctx.violation(dict(call='range-over-array-formulas', args=[f1, ref1, f2, ref2],
+                                               range=ref),
+                                          "a range over array formulas does not show its cells' own values",
+                                          impl=got, expected=want[1])
+    if ctx.model and rf_calls:
+        ms = [dec_res(x) for x in ctx.model.batch([('range_formula', [cells]) for _, cells, _ in rf_calls])]
+        for (case, cells, im), m in zip(rf_calls, ms):
+            ctx.count(('range-formula', repr(case)), kind='range-formula:' + ('own' if im[1][0] else 'none'),
+                      sample=dict(case, impl=im))
+            if not skip_model(m) and not same(m, im):
+                ctx.divergence(case, im, m, 'Model/CseCells.v range_formula = the formula _OpxRange.__new__ '
+                                            'gives the range')
+    if ctx.model and rv_calls:
+        ms = [dec_res(x) for x in ctx.model.batch(
+            [('range_value', [h, w, enc_val(res)]) for _, res, h, w, _ in rv_calls])]
+        for (case, res, h, w, got), m in zip(rv_calls, ms):
+            ctx.count(('range-value', repr(case)), kind='range-formula:value', sample=dict(case, impl=got))
+            if m[0] == 'ok':
+                m = ('ok', sq_model(m[1]))
+            if not skip_model(m) and not same(m, got):
+                ctx.divergence(case, got, m, 'Model/CseCells.v cse_range_value (h, w) result = evaluate(range) '
+                                             'for a range taken for an array formula\'s range')
+
+
+def sheet_side(comp, r0, c0, h, w):
+    """What load_array_formulas wrote into the cells of the reference range and what cell_to_formula
+    makes of it: (row, col, i, j, height, width, start_col, start_row, end_col, end_row) per member."""
+    from pycel.excelutil import AddressRange
+    ws = comp.excel.workbook['Sheet']
+    out = []
+    for row in range(r0, r0 + h):
+        for cl in range(c0, c0 + w):
+            text = ws.cell(row=row, column=cl).value
+            assert text.startswith('=CSE_INDEX(') and text.endswith(')'), text
+            i, j, hh, ww = (int(x) for x in text[:-1].rsplit(',', 4)[1:])
+            f = comp.excel.get_formula_or_value(f'Sheet!{col(cl)}{row}')
+            assert f.startswith('=index(') and f.endswith(')'), f
+            rng, fi, fj = f[len('=index('):-1].rsplit(',', 2)
+            assert (int(fi), int(fj)) == (i, j), f
+            a = AddressRange(rng)
+            out.append((row, cl, i, j, hh, ww, a.start.col_idx, a.start.row, a.end.col_idx, a.end.row))
+    return tuple(out)
 
 
 def enc_m(v):
